@@ -33,6 +33,11 @@ cfg_if::cfg_if! {
     }
 }
 
+// how many coroutines a worker runs before it goes back to its selector
+const RUN_BUDGET: usize = 256;
+// and how often it looks at its global queue meanwhile
+const GLOBAL_INTERVAL: usize = 64;
+
 // thread id, only workers are normal ones
 thread_local! { pub static WORKER_ID: Cell<usize> = const { Cell::new(usize::MAX) }; }
 
@@ -137,8 +142,17 @@ impl Scheduler {
     #[cfg(not(feature = "work_steal"))]
     pub fn run_queued_tasks(&self, id: usize) {
         let local = unsafe { self.local_queues.get_unchecked(id) };
+        // see the work stealing variant below
+        let mut budget = RUN_BUDGET;
         while let Some(co) = local.pop() {
             run_coroutine(co);
+            budget -= 1;
+            if budget == 0 {
+                return;
+            }
+            if budget % GLOBAL_INTERVAL == 0 {
+                self.collect_global(id);
+            }
         }
     }
 
@@ -152,10 +166,22 @@ impl Scheduler {
         #[cfg(feature = "rand_work_steal")]
         let mut rng = fastrand::Rng::new();
 
+        // a coroutine that keeps yielding never lets the local queue run dry: look at
+        // the global queue now and then, and go back to the selector after a while so
+        // that io events and timers get their turn (it comes back at once, see select)
+        let mut budget = RUN_BUDGET;
+
         'work: loop {
             match local.pop() {
                 Some(co) => {
                     run_coroutine(co);
+                    budget -= 1;
+                    if budget == 0 {
+                        return;
+                    }
+                    if budget % GLOBAL_INTERVAL == 0 {
+                        self.collect_global(id);
+                    }
                     continue 'work;
                 }
                 None => {
@@ -183,6 +209,16 @@ impl Scheduler {
             }
             return;
         }
+    }
+
+    /// if the worker still has coroutines in its local queue
+    #[inline]
+    pub fn has_local_tasks(&self, id: usize) -> bool {
+        #[cfg(feature = "work_steal")]
+        let ret = unsafe { &*self.local_queues.get_unchecked(id).get() }.has_tasks();
+        #[cfg(not(feature = "work_steal"))]
+        let ret = !unsafe { self.local_queues.get_unchecked(id) }.is_empty();
+        ret
     }
 
     /// put the coroutine to correct queue so that next time it can be scheduled
